@@ -56,15 +56,20 @@ CLAIMS = {
               'add-loose program (all inputs, C05 file); for the other operations it is certified per observed trace by the verified monitor.'),
         design='4/C03'),
     'C04': dict(
-        technique='Coq rely/guarantee over monotone history (all interleavings) + forced interleavings of real Container calls',
+        technique='Coq rely/guarantee over monotone history (all interleavings), side conditions discharged for the writer/packer programs for all inputs, reader-during-run theorem + forced interleavings of real Container calls',
         text=('PROOF (Coq, closed): C04_actor_steps_are_monotone (every event of a loose writer / the packer, under its side conditions, is a Mono step), '
+              'C04_writer_is_monotone / C04_packer_is_monotone / C04_cleaner_is_monotone / C04_plain_import_is_monotone (for ALL inputs every step of '
+              'add_object, pack_all_loose (one pack, any options), clean_storage, same-hash import / plain direct-to-pack passes those side conditions), '
               'C04_any_interleaving_is_monotone (induction over ANY schedule), C04_reader_finds_every_acknowledged_object (the reader protocol index '
               'snapshot -> loose -> refreshed snapshot returns exactly the bytes of every object stored before its loose lookup, for arbitrary '
-              'monotone histories between its observations and an arbitrarily old pinned snapshot), C04_trace_checker_sound, MAX_RETRIES >= 2 from '
-              'the AST. TIE: the side-condition checker (extracted all_ok_b) accepts the real traces of 18 writer/packer scenarios; 120 (thorough 4000) '
-              'forced schedules of real threads (18 targeted: reader stopped between index lookup and loose open while the packer commits and '
-              'unlinks; rest random bursty) with single/bulk/meta/seeking readers. PARTIAL: the reader protocol is modelled at observation level '
-              '(Mono.lookup), not as an event program; GIL/kernel/SQLite isolation are modelled, not verified; threads stand for processes.'),
+              'monotone histories between its observations and an arbitrarily old pinned snapshot), C04_reader_during_a_monotone_run (the five '
+              'observations placed after ANY p1<=p1\', p2<=p3<=p4 primitives of a running actor), C04_trace_checker_sound, MAX_RETRIES >= 2 from '
+              'the AST. TIE: the side-condition checker (extracted all_ok_b) accepts the real traces of 18 fixed + generated writer/packer scenarios, '
+              'the programs reproduce those traces; 300 (thorough 8000) forced schedules of real threads (18 targeted: reader stopped between index '
+              'lookup and loose open while the packer commits and unlinks; rest random bursty) with single/bulk/meta/seeking readers. PARTIAL: the '
+              'reader protocol is modelled at observation level (Mono.lookup), not as an event program; the interleaving of SEVERAL actors is covered '
+              'by the event-level theorem plus the trace checker, not by a program-level theorem (the model has one handle-local state); '
+              'GIL/kernel/SQLite isolation are modelled, not verified; threads stand for processes.'),
         design='4/C04'),
     'C05': dict(
         technique='Coq program-level crash theorems for every operation and for whole histories (all inputs, every crash point) + verified crash monitor + kill at every gated I/O call',
